@@ -346,5 +346,28 @@ fn main() {
             s.count("q-stress");
         }
     }
+    // non-alternating multi-component links (their simplification glues cobordism components with handles along single arcs): built
+    // several times each, since the elimination order follows randomly seeded hash maps
+    {
+        let mut ls = vec!["L6n1", "L7n1", "L7n2", "L8n1", "L8n2", "L8n3", "L8n4", "L8n5", "L8n6", "L8n7", "L8n8"];
+        if !thorough { r.shuffle(&mut ls); ls.truncate(5); if !ls.contains(&"L8n3") { ls.push("L8n3"); } }
+        for n in ls {
+            let Some(l) = load(n) else { continue };
+            let c = mk(n, l.clone());
+            let cm = mk(&format!("{}-mirror", n), l.mirror());
+            for _ in 0..(if thorough { 4 } else { 3 }) {
+                guarded_case(&mut s, n, |s| one(s, &c, RingTag::Z64, 0, 0, false, true, 0));
+                guarded_case(&mut s, n, |s| one(s, &cm, RingTag::Z64, 0, 0, r.bool(), false, 0));
+            }
+            s.count("nonalternating-link-stress");
+        }
+        // the two smallest links on which a wrong genus in a single-arc gluing was observed, many builds (10–50 % of the builds
+        // of a faulty engine go wrong there)
+        for n in ["L8n3", "L8n2"] {
+            let Some(l) = load(n) else { continue };
+            let cm = mk(&format!("{}-mirror", n), l.mirror());
+            for k in 0..(if thorough { 30 } else { 12 }) { guarded_case(&mut s, n, |s| one(s, &cm, RingTag::Z64, 0, 0, k % 2 == 1, k % 4 < 2, 0)); }
+        }
+    }
     s.finish();
 }
